@@ -270,10 +270,28 @@ fn from_slice6(first: u8, b: &[u8]) -> String {
         pkt.extend_from_slice(&[0u8; 32]);
         pkt.extend_from_slice(b);
         // payload_length 0 means "rest of the slice"; with b empty that is the same thing
-        if let (Ok(ip), Ok((e, _, _))) = (IpSlice::from_slice(&pkt), &r) {
+        if let (Ok(ip), Ok((e, next, rest))) = (IpSlice::from_slice(&pkt), &r) {
             if let IpHeaders::Ipv6(_, e3) = ip.to_header() {
                 if show_exts(&e3) != show_exts(e) {
                     diffs.push(format!("ip_slice_to_header={}", show_exts(&e3)));
+                }
+            }
+            // where the struct holds the whole chain (nothing of it left in `rest`: the number behind it is none of the
+            // decoded kinds), every door names the same number behind the chain
+            let whole = !matches!(next.0, 0 | 43 | 44 | 51 | 60) || rest.is_empty();
+            if whole {
+                let nums = [
+                    ("ip_slice", ip.payload_ip_number()),
+                    ("ip_slice_payload", ip.payload().ip_number),
+                    ("ip_headers_slice", ip.header().payload_ip_number()),
+                    ("ip_headers_from_slice", IpHeaders::from_slice(&pkt).map(|x| x.1.ip_number).unwrap_or(IpNumber(255))),
+                    ("ip_headers_next_header", ip.to_header().next_header().unwrap_or(IpNumber(255))),
+                ];
+                for (name, n) in nums {
+                    // (next_header() walks the struct and demands a referenced chain; the others read the bytes)
+                    if n != *next && !(name == "ip_headers_next_header" && n == IpNumber(255)) && !(name == "ip_headers_from_slice" && n == IpNumber(255)) {
+                        diffs.push(format!("{}_number={}", name, n.0));
+                    }
                 }
             }
         }
